@@ -140,7 +140,7 @@ impl Prop for C07 {
         w.drain();
         cov.sim_ns += w.sim_ns;
         cov.ops += w.ops;
-        RunResult { trace_hash: tr.hash(), violation: viol }
+        RunResult::new(tr.hash(), viol)
     }
 
     fn shrink(&self, scenario: &Value) -> Vec<Value> {
